@@ -31,12 +31,21 @@ static std::vector<Op> parse_ops(const std::string& s) {
 
 struct Counters { long ops_done = 0, skipped = 0, expected_exc = 0, gf_offdiag = 0, tpgf = 0, vertex = 0, susc = 0, avg = 0, trunc = 0, empty_freqs = 0, bounds_queries = 0; std::string unexpected; };
 
+// 64-dimensional models: keep a single run affordable under the sanitizers (frequency grids <= 65 points, vertex window <= 1)
+static std::string cap_grid(const std::string& fr, bool big) {
+    if (!big || fr.compare(0, 5, "grid:") != 0) return fr;
+    std::vector<std::string> p = hc::split(fr, ':');
+    long n = p.size() > 1 ? atol(p[1].c_str()) : 0;
+    return "grid:" + std::to_string(std::min(n, 65L)) + (p.size() > 2 ? ":" + p[2] : "");
+}
+
 static int dig(const std::string& s, size_t i, int nm) { return i < s.size() && s[i] >= '0' && s[i] < '0' + nm ? s[i] - '0' : 0; }
 
 static void run_history(int model, long mp, bool nosym, const std::vector<Op>& ops, Counters& cnt) {
     mpi::communicator comm;
     models::Stage0 s0(model, mp, nosym);
     int nm = s0.IndexInfo->getIndexSize();
+    const bool big = models::is_big(model);
     bool hPrep = false, hComp = false;
     std::unique_ptr<DensityMatrix> rho;
     std::unique_ptr<FieldOperatorContainer> Ops;
@@ -113,7 +122,7 @@ static void run_history(int model, long mp, bool nosym, const std::vector<Op>& o
                 TwoParticleGF chi(*s0.S, *s0.H, Ops->getAnnihilationOperator(q.Index1), Ops->getAnnihilationOperator(q.Index2), Ops->getCreationOperator(q.Index3), Ops->getCreationOperator(q.Index4), *rho);
                 chi.prepare();
                 std::string fr = arg(2); for (size_t i = 3; i < op.a.size(); i++) fr += ":" + op.a[i];
-                std::vector<models::FreqTuple> freqs = models::freqs_from(fr, beta);
+                std::vector<models::FreqTuple> freqs = models::freqs_from(cap_grid(fr, big), beta);
                 if (freqs.empty()) cnt.empty_freqs++;
                 bool clear = arg(1) == "c";
                 std::vector<ComplexType> t = chi.compute(clear, freqs, comm);
@@ -127,9 +136,10 @@ static void run_history(int model, long mp, bool nosym, const std::vector<Op>& o
                 std::set<IndexCombination4> idx;
                 for (auto& qs0 : hc::split(arg(0), ',')) { std::string qs = qs0; while (qs.size() < 4) qs += '0'; idx.insert(IndexCombination4(dig(qs, 0, nm), dig(qs, 1, nm), dig(qs, 2, nm), dig(qs, 3, nm))); }
                 if (idx.empty()) idx.insert(IndexCombination4(0, 0, 0, 0));
+                while (big && idx.size() > 2) idx.erase(--idx.end());
                 Chi->prepareAll(idx);
                 std::string fr = arg(2); for (size_t i = 3; i < op.a.size(); i++) fr += ":" + op.a[i];
-                std::vector<models::FreqTuple> freqs = models::freqs_from(fr, beta);
+                std::vector<models::FreqTuple> freqs = models::freqs_from(cap_grid(fr, big), beta);
                 if (freqs.empty()) cnt.empty_freqs++;
                 std::map<IndexCombination4, std::vector<ComplexType> > t = Chi->computeAll(false, freqs, comm, arg(1) != "n");
                 for (auto& kv : t) for (auto& z : kv.second) use(z);
@@ -145,10 +155,10 @@ static void run_history(int model, long mp, bool nosym, const std::vector<Op>& o
                 auto mk = [&](int i, int j) { std::unique_ptr<GreensFunction> g(new GreensFunction(*s0.S, *s0.H, Ops->getAnnihilationOperator(i), Ops->getCreationOperator(j), *rho)); g->prepare(); g->compute(); return g; };
                 std::unique_ptr<GreensFunction> g13 = mk(q.Index1, q.Index3), g24 = mk(q.Index2, q.Index4), g14 = mk(q.Index1, q.Index4), g23 = mk(q.Index2, q.Index3);
                 Vertex4 V(chi, *g13, *g24, *g14, *g23);
-                long N = std::max(0, atoi(arg(1).c_str())) % 4;
+                long N = std::max(0, atoi(arg(1).c_str())) % (big ? 2 : 4);
                 V.compute(N);
                 long lo = -2 * N - 2, hi = 2 * N + 1;
-                for (long n1 = lo; n1 <= hi; n1++) for (long n2 = lo; n2 <= hi; n2++) for (long n3 = lo; n3 <= hi; n3++) use(V(n1, n2, n3));
+                for (long n1 = lo; n1 <= hi; n1++) for (long n2 = lo; n2 <= hi; n2++) for (long n3 = lo; n3 <= hi; n3 += (big ? std::max(1L, (hi - lo) / 2) : 1)) use(V(n1, n2, n3));
                 use(V.value(0, 1, 0));
                 cnt.vertex++;
             }
@@ -224,6 +234,7 @@ static hc::Outcome run_one(hc::RunSpec& rs) {
     c.def("model", model); model = (int)c.i("model") % models::N_MODELS; if (model < 0) model = 0; c.set("model", model);
     c.def("mp", r.pct(15) ? 0 : r.range(1, 100000));
     c.def("nosym", r.pct(40));   // one block: off-diagonal components whose sparse matrices have different sparsity patterns
+    if (models::is_big(model)) c.set("nosym", 0);   // one 64-dimensional block makes a single two-particle GF cost minutes under the sanitizers
     int nm = models::nmodes(model);
     c.def("ops", gen_ops(r, nm));
     hc::sim_defaults_from_seed(c, r, P);
